@@ -5,7 +5,8 @@ case $1 in
 start)
   pkill -9 -f "ts-server.*$D" 2>/dev/null; sleep 1; rm -rf $D; mkdir -p $D
   sed -e 's/\r$//' -e "s/127.0.0.1/$IP/g" -e "s#/tmp/openGemini#$D#g" /repo/config/openGemini.singlenode.conf > $D/conf
-  sed -i 's/# *store-enabled = .*/store-enabled = false/' $D/conf
+  sed -i 's/store-enabled = true/store-enabled = false/; s/flight-enabled = true/flight-enabled = false/' $D/conf
+  sed -i "s/^\[data\]$/[data]\n  max-rows-per-segment = ${SEG:-8}/; s/^\[meta\]$/[meta]\n  ptnum-pernode = ${PT:-1}/" $D/conf
   (cd $D && nohup /verif/.build/C02/ts-server -config $D/conf > $D/out.log 2>&1 &)
   for i in $(seq 1 50); do curl -s -o /dev/null "http://$IP:8086/ping" && break; sleep 0.2; done; echo "up at $IP" ;;
 stop) pkill -f "ts-server.*$D"; rm -rf $D ;;
